@@ -39,6 +39,17 @@ func c06Template(t int, tag string, r gen.Rand) *spec.Spec {
 			{Op: "writerfunc", In: []int{1}},
 			{Op: "scan", In: []int{2}},
 		}}
+	case 3:
+		// Reader and writer functions in tasks whose output feeds a shuffle WITHOUT
+		// a combiner (the worker partitions the output itself).
+		return &spec.Spec{Tag: tag, Nodes: []spec.Node{
+			{Op: "readerfunc", KT: "int", Shards: 3, N: 600, Card: 19, DSeed: 5, Chunks: []int{50, 128, 7}},
+			{Op: "writerfunc", In: []int{0}},
+			{Op: "fold", Fn: "sum", In: []int{1}},
+			{Op: "map", Fn: "inc", M: 1, In: []int{2}},
+			{Op: "writerfunc", In: []int{3}},
+			{Op: "reshuffle", In: []int{4}},
+		}}
 	default:
 		return &spec.Spec{Tag: tag, Nodes: []spec.Node{
 			{Op: "scanreader", Fn: "lines", Shards: 2, N: 200, Card: 9, DSeed: 7},
@@ -65,7 +76,7 @@ func c06Modes(op string) []string {
 var c06Combos []c06Combo
 
 func init() {
-	for t := 0; t < 3; t++ {
+	for t := 0; t < 4; t++ {
 		sp := c06Template(t, "a", gen.New(1))
 		for ni, n := range sp.Nodes {
 			for _, mode := range c06Modes(n.Op) {
@@ -98,8 +109,58 @@ func init() {
 	}
 }
 
+// c06Cycles is the number of discard-cycle scenarios per pass over the combinations.
+const c06Cycles = 12
+
+// genC06Cycle: a source that fails temporarily on the first attempt of every
+// (re-)execution of one of its tasks and works on the retry, in a session where
+// the Result is discarded and consumed again several times: each failure goes
+// away on retry, so every run has to succeed, however many there have been.
+func genC06Cycle(seed uint64, i int) *world.Case {
+	s := seedFor(seed, "C06-cycle", i)
+	r := gen.New(s)
+	cfg := gen.Config(r, "")
+	cfg.Chunk, cfg.SortCanary, cfg.MaxLoad, cfg.MachineCombiners = 0, 0, 0, false
+	if i%2 == 0 {
+		cfg.Executor, cfg.Parallelism = "local", r.Pick(1, 4)
+	} else {
+		cfg.Executor, cfg.Parallelism, cfg.Procs = "cluster", 4, 2
+	}
+	sp := &spec.Spec{Tag: "a", Nodes: []spec.Node{
+		{Op: "readerfunc", KT: "int", Shards: 2, N: 60, Card: 11, DSeed: 4, Chunks: []int{16}},
+		{Op: "map", Fn: "inc", M: 1, In: []int{0}},
+	}}
+	if r.Chance(0.5) {
+		sp.Nodes = append(sp.Nodes, spec.Node{Op: "reduce", Fn: "sum", In: []int{1}})
+	}
+	ts, err := sp.Types()
+	if err != nil {
+		panic(err)
+	}
+	t := ts[sp.Root()]
+	uf := &world.UFault{Site: sp.Site(0), Key: "s1@0", Mode: "temp", Every: 2}
+	c := &world.Case{Format: 1, Property: "C06", Seed: s, Config: cfg, UFaults: []*world.UFault{uf},
+		Oracle: world.Oracle{Rows: true, Liveness: true}}
+	c.Script = append(c.Script, world.Step{Op: "run", ID: "r1", Func: "prog0", Spec: sp, MustSucceed: true})
+	n := 5 + r.Intn(3)
+	for k := 0; k < n; k++ {
+		sp2 := &spec.Spec{Tag: fmt.Sprintf("c%d", k), Nodes: []spec.Node{{Op: "arg", T: &t}, {Op: "map", Fn: "inc", M: 1, In: []int{0}}}}
+		id := fmt.Sprintf("c%d", k)
+		c.Script = append(c.Script,
+			world.Step{Op: "discard", Of: "r1"},
+			world.Step{Op: "run", ID: id, Func: "prog1", Spec: sp2, Args: []string{"r1"}, MustSucceed: true},
+			world.Step{Op: "scan", Of: id, MustSucceed: true})
+	}
+	return c
+}
+
 // GenC06 generates case i of C06: the cross product is enumerated first, then repeated under other seeds.
 func GenC06(seed uint64, i int) *world.Case {
+	if k := i % (len(c06Combos) + c06Cycles); k >= len(c06Combos) {
+		return genC06Cycle(seed, i)
+	} else {
+		i = i/(len(c06Combos)+c06Cycles)*len(c06Combos) + k
+	}
 	s := seedFor(seed, "C06", i)
 	r := gen.New(s)
 	cb := c06Combos[i%len(c06Combos)]
@@ -205,14 +266,15 @@ func GenC06(seed uint64, i int) *world.Case {
 
 // C06 — user errors and panics surface as errors from Run.
 func C06(tier string, seed uint64) int {
+	fmt.Printf("verif: C06 combinations=%d discard-cycle scenarios=%d\n", len(c06Combos), c06Cycles)
 	b := &Batch{
 		Property: "C06", Tier: tier, Seed: seed, Level: "fault_enumeration",
-		Rule: fmt.Sprintf("enumeration of %d combinations (user-function site in 3 template programs x failure mode {error,temporary,panic,out-of-range partition} x {persistent, one-shot} x position {first row/call, around the vector boundary, last, at end-of-stream} x executor configuration {local p=1, local p=4, cluster, cluster+machine combiners}), each as its own child process (a crash of the process is observed as such), then re-sampled under other seeds and chunk sizes; oracle: Run returns an error (with the injected marker for errors and panics) unless the failure is temporary and one-shot, in which case it succeeds with reference rows; a following fault-free Run in the same session succeeds with reference rows; no hang", len(c06Combos)),
+		Rule: fmt.Sprintf("enumeration of %d combinations (user-function site in 4 template programs x failure mode {error,temporary,panic,out-of-range partition} x {persistent, one-shot} x position {first row/call, around the vector boundary, last, at end-of-stream} x executor configuration {local p=1, local p=4, cluster, cluster+machine combiners}), each as its own child process (a crash of the process is observed as such), then re-sampled under other seeds and chunk sizes; oracle: Run returns an error (with the injected marker for errors and panics) unless the failure is temporary and one-shot, in which case it succeeds with reference rows; a following fault-free Run in the same session succeeds with reference rows; no hang; plus %d discard-cycle scenarios per pass (a source that fails temporarily on the first attempt of every re-execution, Result discarded and consumed again 5-7 times: every run must succeed)", len(c06Combos), c06Cycles),
 		Gen: func(i int) *world.Case { return GenC06(seed, i) },
-		N:   len(c06Combos),
+		N:   len(c06Combos) + c06Cycles,
 	}
 	if tier != "quick" {
-		b.N = 3 * len(c06Combos)
+		b.N = 3 * (len(c06Combos) + c06Cycles)
 		b.Budget = 20 * time.Minute
 	}
 	return b.Run()
